@@ -350,7 +350,7 @@ def run_check(prop, a, jobs, findings, scratch, seed, t_start):
         dm = list(t.demangled.values())
         for pat in j.get('carriers', []):
             hits = [d for d in dm if re.search(pat, d)]
-            if not hits: problems.append('job %s: carrier function /%s/ not found in lowered code (renamed or no longer instantiated)' % (j['id'], pat))
+            if not hits: problems.append('carrier function /%s/ of %s not found in lowered code (renamed or no longer instantiated)' % (pat, j['tu']))
             for h in hits[:3]: carriers[h] = carriers.get(h, 0) + 1
     # translation validation per TU that exports verif_drive
     tv = []
@@ -435,6 +435,7 @@ def run_check(prop, a, jobs, findings, scratch, seed, t_start):
             print('VIOLATION property=%s replay=%s%s' % (prop, rpath, tail))
             vio_out.append({'job': j['id'], 'obligation': ob['desc'], 'replay': rpath, 'native': verdict})
         rc = 1
+    problems = list(dict.fromkeys(problems))
     for u in undecided: print('UNDECIDED:', u)
     for p in problems: print('TOOL-LIMIT:', p[:1500])
     if rc == 0 and (problems or undecided): rc = 2
